@@ -130,7 +130,9 @@ func OracleC10(rc *sim.RunCtx, w *world.World, prior world.DevState, rec *world.
 	}
 	norm := func(s world.DevState) world.DevState { return s.WithImpliedPresence(si) }
 	// effects are compared under the YANG reading of presence containers (an existing one stays until deleted explicitly)
-	persist := func(s world.DevState, deleted []world.Path) world.DevState { return s.PersistPresence(si, prior, deleted) }
+	persist := func(s world.DevState, deleted []world.Path) world.DevState {
+		return s.PersistPresence(si, prior, deleted)
+	}
 	// reference effect: proto view
 	ref := prior.Clone()
 	world.ApplyGnmi(ref, rec.Deletes, rec.Updates)
